@@ -286,6 +286,45 @@ def run_chain(spec, work, ctx):
                   [q, stats, lookup], declared, watch, empties)
     if e:
         return f'mapping without scratch raised {e[-300:]}'
+    # storing results in the query file is the one case in which an input
+    # may change - and then only its obsm
+    q3 = ind / 'query_obsm.h5ad'
+    shutil.copy(q, q3)
+    before_parts = {k: v for k, v in pw.h5_digest(q3, skip=()).items()
+                    if not k.startswith('obsm')}
+    mdir3 = outd / 'map_obsm'
+    mdir3.mkdir()
+    cfg3 = pw.mapping_config(mdir3, q3, stats, lookup, chunk_size=4,
+                             n_processors=2)
+    cfg3['tmp_dir'] = str(scratch)
+    cfg3['obsm_key'] = 'cell_type_mapping'
+    cfg3['summary_metadata_path'] = str(mdir3 / 'summary.json')
+
+    def do_map3():
+        with pw.quiet():
+            run_mapping(config=cfg3,
+                        output_path=cfg3['extended_result_path'],
+                        log_path=cfg3['log_path'],
+                        hdf5_output_path=cfg3['hdf5_result_path'])
+    e = monitored(ctx, 'mapping-obsm', do_map3, [stats, lookup],
+                  [mdir3, q3], watch, empties)
+    if e:
+        return f'mapping with obsm_key raised {e[-300:]}'
+    after_all = pw.h5_digest(q3, skip=())
+    after_parts = {k: v for k, v in after_all.items()
+                   if not k.startswith('obsm')}
+    if before_parts != after_parts:
+        changed = [k for k in before_parts
+                   if after_parts.get(k) != before_parts[k]]
+        ctx.V('C19:query-changed-outside-obsm',
+              f'datasets {changed[:5]} of the query changed when results '
+              f'were stored under obsm')
+    if not any(k.startswith('obsm/cell_type_mapping') for k in after_all):
+        ctx.V('C19:obsm-not-written', 'obsm_key requested but absent')
+    ctx.bump('obsm_runs_checked')
+    sm = json.loads((mdir3 / 'summary.json').read_text())
+    if sm.get('n_mapped_cells') != 12:
+        ctx.V('C19:summary-metadata', f'{sm}')
     return None
 
 
